@@ -8,6 +8,7 @@ pub mod model;
 pub mod payload;
 pub mod rng;
 pub mod runner;
+pub mod streams;
 pub mod world;
 
 use runner::Tier;
